@@ -66,6 +66,12 @@ func (fhs *FastHotStuff) VoteRule(view hotstuff.View, proposal hotstuff.ProposeM
 	// The base implementation verifies both regular QCs and AggregateQCs, and asserts that the QC embedded in the
 	// block is the same as the highQC found in the aggregateQC.
 	if proposal.AggregateQC != nil {
+		// the aggregate must be the one of the view just before the proposal: an aggregate of an older view says
+		// nothing about what the replicas knew when this proposal was made, and replaying it would let a leader
+		// fork off the (old) high QC it contains.
+		if proposal.AggregateQC.View()+1 != proposal.Block.View() {
+			return false
+		}
 		hqcBlock, ok := fhs.blockchain.Get(proposal.Block.QuorumCert().BlockHash())
 		return ok && fhs.blockchain.Extends(proposal.Block, hqcBlock)
 	}
